@@ -115,6 +115,17 @@ def check_case(case):
             elif g["titratable"]:
                 v.append({"clause": "ligand-model-pka", "detail": "%s type %s titratable without configured model pKa"
                           % (g["label"], t)})
+        # every hetero residue whose name is a configured ion yields exactly one ion group per atom
+        want_ions = collections.Counter()
+        for a in atoms:
+            if a.model == model and a.resn.strip() in cfg["ions"] and not a.is_h and \
+                    a.resn.strip() not in census.IGNORABLE and (chains is None or a.chain in chains):
+                want_ions[(a.chain.strip() or "_", a.resnum, a.resn.strip())] += 1
+        got_ions = collections.Counter((g["chain"], g["resnum"], g["resname"].strip()) for g in het
+                                       if g["type"] == "ION")
+        if want_ions != got_ions:
+            v.append({"clause": "ion-groups", "detail": "ion groups %r, ion residues in the file %r" % (
+                sorted((got_ions - want_ions).elements())[:3], sorted((want_ions - got_ions).elements())[:3])})
         # library ligands: chemically expected multiset of group types
         seen_res = set()
         for a in atoms:
